@@ -564,3 +564,82 @@ func (ex *Exec) ghostVar(st *State, name string) *Term {
 	}
 	return t
 }
+
+// ---------------- bigcache (A6) ----------------
+// Get returns nil or ErrEntryNotFound only; Set always succeeds; Delete fails with ErrEntryNotFound iff the
+// key is absent. No eviction between the calls of one operation.
+const bigcachePkg = "github.com/allegro/bigcache"
+
+func (ex *Exec) bcHas(st *State, d *Object) *Term {
+	return ex.ghostArr(st, fmt.Sprintf("bc:%d:has", d.ID), ArrSort(SB, SBool), "bc_has")
+}
+func (ex *Exec) bcVal(st *State, d *Object) *Term {
+	return ex.ghostArr(st, fmt.Sprintf("bc:%d:val", d.ID), ArrSort(SB, SB), "bc_val")
+}
+
+func init() {
+	b := "(*" + bigcachePkg + ".BigCache)."
+	notFound := func(ex *Exec, s *State) Value {
+		if g := ex.lookupGlobalPath(bigcachePkg, "ErrEntryNotFound"); g != nil {
+			return ex.load(s, &PtrV{Nil: TFalse, Obj: ex.globalObj(g)}, nil)
+		}
+		return ex.freshErr("entrynotfound", true)
+	}
+	reg(b+"Get", func(ex *Exec, st *State, fr *Frame, ins ssa.Instruction, args []Value) (Value, bool) {
+		c := objOf(args[0])
+		if c == nil {
+			return nil, false
+		}
+		key := strArg(ex, st, args[1])
+		has := Select(ex.bcHas(st, c), key)
+		mk := func(s *State, found bool) *TupleV {
+			if !found {
+				return &TupleV{E: []Value{&SliceV{Nil: TTrue, Off: IntC(0), Len: IntC(0), Cap: IntC(0), Elem: types.Typ[types.Uint8]}, notFound(ex, s)}}
+			}
+			return &TupleV{E: []Value{ex.newByteSlice(s, Select(ex.bcVal(s, c), key), "cached"), &IfaceV{ID: IntC(0)}}}
+		}
+		switch st.Decide(has) {
+		case 1:
+			return mk(st, true), true
+		case -1:
+			return mk(st, false), true
+		}
+		other := ex.fork(st)
+		other.Assume(Not(has))
+		if !other.Dead {
+			of := other.Top()
+			res := mk(other, false)
+			if cl, ok := ins.(*ssa.Call); ok {
+				of.Locals[cl] = res
+			}
+			ex.event(other, &Event{Callee: b + "Get", Args: args, Results: res.E, Instr: ins, Fn: of.Fn, Kind: "call"})
+			ex.push(other)
+		}
+		st.Assume(has)
+		return mk(st, true), true
+	})
+	reg(b+"Set", func(ex *Exec, st *State, fr *Frame, ins ssa.Instruction, args []Value) (Value, bool) {
+		c := objOf(args[0])
+		if c == nil {
+			return nil, false
+		}
+		key, val := strArg(ex, st, args[1]), strArg(ex, st, args[2])
+		st.Ghost[fmt.Sprintf("bc:%d:has", c.ID)] = Store(ex.bcHas(st, c), key, TTrue)
+		st.Ghost[fmt.Sprintf("bc:%d:val", c.ID)] = Store(ex.bcVal(st, c), key, val)
+		return &IfaceV{ID: IntC(0)}, true
+	})
+	reg(b+"Delete", func(ex *Exec, st *State, fr *Frame, ins ssa.Instruction, args []Value) (Value, bool) {
+		c := objOf(args[0])
+		if c == nil {
+			return nil, false
+		}
+		key := strArg(ex, st, args[1])
+		has := Select(ex.bcHas(st, c), key)
+		st.Ghost[fmt.Sprintf("bc:%d:has", c.ID)] = Store(ex.bcHas(st, c), key, TFalse)
+		nf, _ := notFound(ex, st).(*IfaceV)
+		if nf == nil {
+			return ex.errValue(Not(has), "delete_err"), true
+		}
+		return &IfaceV{ID: Ite(has, IntC(0), nf.ID)}, true
+	})
+}
